@@ -410,6 +410,85 @@ def width_sweep(tier, seed):
     return out
 
 
+def pair_sweep(tier, seed):
+    """two instances of one library class in one design whose port widths differ in ONE port (all others equal): the generator
+    either shares one module between them (then the interfaces must really be the same) or emits two - a module name that does
+    not encode the differing width binds the second instance to the first body.  Systematic part: every port position of every
+    signature made narrower / wider than the common width, both instantiation orders; seeded part: independent draws."""
+    quick = tier == 'quick'
+    rnd = random.Random(2000 + seed)
+    out = []
+    WID = [1, 2, 3, 4, 5, 8]
+
+    def emit(cname, cls, first, second):
+        def b(s, cls=cls, first=first, second=second):
+            ins, outs = {}, {}
+            for inst, tk in (('u1', first), ('u2', second)):
+                args = []
+                for j, (d, w) in enumerate(tk):
+                    if d == 'L':
+                        lst = []
+                        for k2, w2 in enumerate(w):
+                            nm = '%s_l%d_%d' % (inst, j, k2)
+                            ins[nm] = W(s, nm, w2)
+                            lst.append(ins[nm])
+                        args.append(lst)
+                        continue
+                    nm = '%s_%s%d' % (inst, d, j)
+                    wr = W(s, nm, w)
+                    (ins if d == 'i' else outs)[nm] = wr
+                    args.append(wr)
+                cls(s, inst, *args)
+            return {'ins': ins, 'outs': outs}
+        fmt = lambda tk: ' '.join('%s%s' % (d, '/'.join(map(str, w)) if d == 'L' else w) for d, w in tk)
+        out.append(('instance pair %s [%s] then [%s]' % (cname, fmt(first), fmt(second)), {'build': wrap_in_box(b, 'seq')}))
+
+    def base(sig, w0, n):
+        toks = []
+        for ch in sig:
+            if ch == 'L':
+                toks.append(('L', [w0] * n))
+            elif ch == 'S':
+                toks.append(('L', [1] * n))
+            elif ch == 'M':
+                toks.append(('L', [w0] * 2))
+            else:
+                toks.append(('i' if ch in 'ib' else 'o', 1 if ch in 'bq' else w0))
+        return toks
+
+    for cname, sig in SWEEP:
+        cls = globals().get(cname) or getattr(py4hw, cname)
+        for w0, others in (((4, (2, 8)),) if quick else ((4, (2, 8)), (3, (1, 5)), (8, (4, 5)))):
+            toks = base(sig, w0, 2)
+            for j, ch in enumerate(sig):
+                if ch not in 'ioLM':
+                    continue
+                for w1 in others:
+                    toks2 = [(d, list(w) if d == 'L' else w) for d, w in toks]
+                    if toks2[j][0] == 'L':
+                        toks2[j][1][-1] = w1
+                    else:
+                        toks2[j] = (toks2[j][0], w1)
+                    emit(cname, cls, toks2, toks)
+                    emit(cname, cls, toks, toks2)
+        for k in range(1 if quick else 8):
+            n = rnd.choice([2, 3])
+            toks = [(d, [rnd.choice(WID) for _ in w] if (d == 'L' and sig[j] != 'S') else (w if d == 'L' or sig[j] in 'bq' else rnd.choice(WID)))
+                    for j, (d, w) in enumerate(base(sig, 4, n))]
+            cand = [j for j, ch in enumerate(sig) if ch in 'ioLM']
+            j = rnd.choice(cand)
+            toks2 = [(d, list(w) if d == 'L' else w) for d, w in toks]
+            d, w = toks2[j]
+            if d == 'L':
+                kk = rnd.randrange(len(w))
+                w[kk] = rnd.choice([x for x in WID if x != w[kk]])
+            else:
+                toks2[j] = (d, rnd.choice([x for x in WID if x != w]))
+            emit(cname, cls, toks, toks2)
+            emit(cname, cls, toks2, toks)
+    return out
+
+
 def cfgs(tier, seed=0):
     quick = tier == 'quick'
     out = []
@@ -423,6 +502,7 @@ def cfgs(tier, seed=0):
         out.append(('C09/' + name, {'build': wrap_in_box(cfg['build'], 'seq')}))
     out += extra_cfgs(tier)
     out += width_sweep(tier, seed)
+    out += pair_sweep(tier, seed)
     out += compositions(tier, seed)
     return out
 
